@@ -85,6 +85,8 @@ pub enum Ty {
     /// the crate's `Error` (or `io::Error`) as a value: `Err`
     Error,
     Never,
+    /// `FxHashMap<K, V>` / `HashMap<K, V>`: an association list in insertion order
+    Map(Box<Ty>, Box<Ty>),
     /// a type parameter of a generic function
     Param(String),
     /// a closure / function parameter `F: Fn(A) -> R`
@@ -276,6 +278,7 @@ pub fn lean_ty(t: &Ty) -> String {
         Ty::Struct(n) => n.clone(),
         Ty::Error => "Err".into(),
         Ty::Never => "Unit".into(),
+        Ty::Map(k, v) => format!("(List ({} × {}))", lean_ty(k), lean_ty(v)),
         Ty::Param(n) => n.clone(),
         Ty::Fun(a, r) => format!("({} → {})", a.iter().map(lean_ty).collect::<Vec<_>>().join(" → "), lean_ty(r)),
     }
